@@ -28,6 +28,50 @@ theorem rnd_near {x : ℝ} (h0 : 0 ≤ x) (h1 : x ≤ 2 ^ 53) : |rnd (F := F) x 
   have : (1:ℝ) / 10 ^ 30 ≤ 1 := by rw [div_le_one (by positivity)]; norm_num
   linarith
 
+/-- the scaled product `p·π` of the constructor: finite, correctly rounded, and its quotient by `d` stays below `2^42 + 2` -/
+theorem scaled_spec {p d : F} (hp : Fin p) (hd : Fin d) (hpb : |val p| ≤ 10 ^ 200)
+    (hdl : 1 / 10 ^ 200 ≤ |val d|) (hq : |val p * piV F / val d| ≤ 2 ^ 42) :
+    Fin (fmul p (FloatLike.pi : F)) ∧ val (fmul p (FloatLike.pi : F)) = rnd (F := F) (val p * piV F) ∧
+    |val (fmul p (FloatLike.pi : F)) / val d| ≤ 2 ^ 42 + 2 := by
+  have hpi3 := piV_gt3 (F := F); have hpi4 := piV_lt4 (F := F)
+  have hdpos : 0 < |val d| := lt_of_lt_of_le (by positivity) hdl
+  have hd0 : val d ≠ 0 := abs_pos.mp hdpos
+  -- x1 = rnd(p·π)
+  have hppi : |val p * piV F| ≤ 4 * 10 ^ 200 := by
+    rw [abs_mul, abs_of_pos (by linarith : (0:ℝ) < piV F)]
+    calc |val p| * piV F ≤ 10 ^ 200 * 4 := mul_le_mul hpb (le_of_lt hpi4) (by linarith) (by positivity)
+      _ = 4 * 10 ^ 200 := by ring
+  obtain ⟨hf1, hv1⟩ := fmul_spec hp (fin_pi (F := F)) (by
+    rw [val_pi]; apply inRange_of_le; norm_num at hppi ⊢; linarith)
+  rw [val_pi] at hv1
+  have he1 := rnd_err (F := F) (val p * piV F)
+  rw [← hv1] at he1
+  obtain ⟨x1, hx1⟩ : ∃ x, x = val (fmul p (FloatLike.pi : F)) := ⟨_, rfl⟩
+  rw [← hx1] at he1 hv1
+  -- |x1/d − pπ/d| ≤ |pπ/d|/2^53 + tiny/|d|
+  have hquot : |x1 / val d - val p * piV F / val d| ≤ |val p * piV F / val d| / 2 ^ 53 + 1 := by
+    have e : x1 / val d - val p * piV F / val d = (x1 - val p * piV F) / val d := by ring
+    rw [e, abs_div]
+    have h1 : |x1 - val p * piV F| / |val d| ≤ (|val p * piV F| / 2 ^ 53 + 1 / 2 ^ 1075) / |val d| :=
+      div_le_div_of_nonneg_right he1 (le_of_lt hdpos)
+    have h2 : (|val p * piV F| / 2 ^ 53 + 1 / 2 ^ 1075) / |val d| =
+        |val p * piV F / val d| / 2 ^ 53 + 1 / 2 ^ 1075 / |val d| := by rw [abs_div]; ring
+    have h3 : (1:ℝ) / 2 ^ 1075 / |val d| ≤ 1 := by
+      rw [div_le_one hdpos]
+      have t1 := tiny_1075_300
+      have t2 : (1:ℝ) / 10 ^ 300 ≤ 1 / 10 ^ 200 :=
+        one_div_le_one_div_of_le (by positivity) (pow_le_pow_right₀ (by norm_num) (by norm_num))
+      linarith
+    linarith
+  have hq53 : |val p * piV F / val d| / 2 ^ 53 ≤ 1 := by
+    rw [div_le_one (by positivity)]
+    calc |val p * piV F / val d| ≤ 2 ^ 42 := hq
+      _ ≤ 2 ^ 53 := by norm_num
+  have hx1d : |x1 / val d| ≤ 2 ^ 42 + 2 := by
+    have := abs_sub_abs_le_abs_sub (x1 / val d) (val p * piV F / val d)
+    linarith
+  exact ⟨hf1, by rw [← hx1]; exact hv1, by rw [← hx1]; exact hx1d⟩
+
 /-- the raw total `p·π/d` as the constructor computes it (either order of operations): finite and at most `2^43` in
     magnitude, for finite arguments with `|p| ≤ 1e200`, `|d| ≥ 1e-200` and `|p·π/d| ≤ 2^42` -/
 theorem newRawTotal_spec {p d : F} (hp : Fin p) (hd : Fin d) (hpb : |val p| ≤ 10 ^ 200)
